@@ -465,3 +465,39 @@ _run_m07 = run
 def run(ctx, rep, tier):
     _run_m07(ctx, rep, tier)
     _minimisation_obligations(ctx, rep, tier)
+
+
+
+# ---------------------------------------------------------------------------------------------------------------- C07.n
+def _set_members_all_united(ctx, rep, tier):
+    """C07.n (seed C07-15): a bracket set denotes the union of ALL its members. The accumulation loop unites every member's class into the accumulator,
+    unconditionally - a shortcut that skips a member by comparing `.chars` is wrong as soon as one side is an inverted class (there `.chars` are the
+    excluded bytes): `[\\Wa]` then refuses 'a'."""
+    import ast
+    from ..srcmodel import walk_no_nested
+    model = ctx.model
+    rep.rule("C07.n", "a bracket set is the union of all its members: the accumulation loop unites every member unconditionally (no skip, no early exit)")
+    n = 0
+    for q in ("RegexMatch._visit_all_char_classes", "BinaryRegexMatch._visit_all_char_classes"):
+        fn = model.func(q)
+        for lp in [x for x in walk_no_nested(fn) if isinstance(x, ast.For)]:
+            unions = [st for st in ast.walk(lp) if isinstance(st, ast.Assign) and isinstance(st.value, ast.Call) and isinstance(st.value.func, ast.Attribute) and st.value.func.attr == "union"
+                      and ast.unparse(st.targets[0]) == ast.unparse(st.value.func.value)]
+            if not unions or any(isinstance(x, ast.For) and x is not lp and any(u in list(ast.walk(x)) for u in unions) for x in ast.walk(lp)):
+                continue
+            n += 1
+            top = [st for st in lp.body if any(st is u for u in unions)]
+            leaves = [x for x in ast.walk(lp) if isinstance(x, (ast.Continue, ast.Break)) or (isinstance(x, ast.Return))]
+            rep.check(len(unions) == 1 and len(top) == 1 and not leaves, "C07.n", q, "every member is united into the set",
+                      f"the accumulation loop of {q.split('.')[0]} skips members ({'union under a condition' if not top else 'continue / break / return inside the loop'}): a member that is not "
+                      "united is lost from the set - for inverted classes a subset test on `.chars` means the opposite (`[\\Wa]` refuses 'a', `[^\\W_]` accepts '_')")
+    if n < 2:
+        raise AnalysisError(f"C07.n: only {n} set accumulation loops found (floor 2)")
+
+
+_run_r6 = run
+
+
+def run(ctx, rep, tier):
+    _run_r6(ctx, rep, tier)
+    _set_members_all_united(ctx, rep, tier)
